@@ -36,6 +36,29 @@ def run(ctx):
     # the walk recurses into every sub element that belongs to the file and uses the TARGET version for the lookup
     rec = [pos for pos, t in cw.iter_calls() if callee_of(t) == cw.id]
     C.check(len(rec) == 1 and bool(E.loops_containing(cw, rec)), 'C17-SIB-columns', 'walk-recurses-over-sub-elements', 'the compatibility walk no longer recurses over the sub elements in a loop')
+    # ... and visits EVERY sub element: the only way out of that loop is the exhausted iterator
+    for h, body in cw.natural_loops():
+        if rec and rec[0][0] in body:
+            exits = []
+            for bi in body:
+                for sx in cw.succs(bi):
+                    if sx not in body and not cw.blocks[sx]['cleanup']:
+                        exits.append((bi, sx))
+            nexts = [pos for pos, t in cw.iter_calls() if call_matches(t, r'ElementsIterator as .*Iterator>::next$') and pos[0] in body]
+            ok = bool(nexts)
+            if ok:
+                nt = cw.blocks[nexts[0][0]]['term']['t']
+                # exit edges may only leave from the block that tests the iterator result (and the drop chain behind its None edge)
+                none_region = cw.reach_from((nt, 0), include_start=True, avoid={(h, 0)})
+                ok = all(cw.blocks[e[0]]['term']['k'] == 'switch' and e[0] == nt or (e[0], 0) in none_region and not any(p2[0] == e[0] for p2 in rec) for e in exits)
+                # stricter: no exit edge is reachable from the membership test or from any point after the iterator yielded Some
+                sw = cw.blocks[nt]['term']
+                if sw['k'] == 'switch':
+                    some_t = dict(sw['ts']).get('1', sw['else'])
+                    some_region = cw.reach_from((some_t, 0), include_start=True, avoid={(h, 0)})
+                    ok = not any((e[0], 0) in some_region or any(p3[0] == e[0] for p3 in some_region) for e in exits)
+            C.check(ok, 'C17-SIB-columns', 'walk-visits-every-sub-element', 'the per-child loop of the compatibility walk can be left before all sub elements were visited (break / early return): later siblings are neither checked nor folded into the mask',
+                    cw.where((h, 0)), sample={'fn': 'Element::check_version_compatibility', 'loop_exits': len(exits)})
     fs = [(pos, t) for pos, t in cw.iter_calls() if call_matches(t, r'ElementType::find_sub_element$')]
     tv = False
     for pos, t in fs:
